@@ -555,7 +555,7 @@ pub fn gen(out: &mut Out, sub: &str) {
         }
         return;
     }
-    let n = out.size(6_000, 120_000);
+    let n = out.size(6_000, 90_000);
     for i in 0..n {
         let input = if i % 3 == 2 { random_fmt(&mut rng) } else { random_loc(&mut rng) };
         let (ev, nt) = exec(&input);
